@@ -328,7 +328,7 @@ def matches(q, d):
         return any(rx.match(t) for t in toks(d, q.fieldname))
     if isinstance(q, query.Regex):
         rx = re.compile(q.text)
-        return any(rx.match(t) and rx.match(t).end() == len(t) for t in toks(d, q.fieldname))
+        return any(rx.match(t) for t in toks(d, q.fieldname))  # whoosh documents "terms that match": re.match semantics (DESIGN §7)
     if isinstance(q, query.DateRange):
         v = d.get(q.fieldname)
         return v is not None and _in_range(v, q.startdate, q.enddate, q.startexcl, q.endexcl)
